@@ -1,0 +1,8 @@
+//go:build verif
+
+package redblacktree
+
+// VerifIsRed reports whether the node is red (read-only access for the verification harness).
+func (node *Node[K, V]) VerifIsRed() bool {
+	return node != nil && node.color == red
+}
